@@ -42,6 +42,8 @@ def rule_L6(ctx, func, tracker, rid='L6'):
         ctx.ob(rid, '%s:record(%d)' % (func.qualname, k), ok, func.where(eb.ast), why)
     # block flags are computed from the same records (len of the pushed point sets)
     bl = [e for nid in sorted(ev) for e in ev[nid] if e.member == 'block' and e.op == 'PUSH']
+    ctx.ob(rid, '%s:one-flag-per-record' % func.qualname, len(bl) == len(b), func.where(),
+           '%d may-split flags are pushed for %d new ellipsoids' % (len(bl), len(b)))
     for k, e in enumerate(bl):
         txt = unparse(e.payload)
         want = -len(bl) + k
